@@ -91,26 +91,47 @@ def describe(e):
 def main(chk):
     core.setup_repo_path()
     quick = chk.tier == "quick"
-    steps, rich, mrs, maxlen = (3, "FALSE", "{2, 32}", 40) if quick else (4, "TRUE", "{0, 1, 2, 32, 100}", 50)
-    cfg = {"constants": {"MaxSteps": str(steps), "Rich": rich, "MaxRepeats": mrs, "MaxLen": str(maxlen)},
-           "invariants": ["C09_FullMatchOrRefusal", "C09_SupportedNeverRefused", "C09_SearchAccepts"],
-           "view": "View"}
-    res = chk.model_check("MC_Regex", cfg, dump=True, timeout=3000)
+    # (MaxSteps, Rich, MaxRepeats, MaxLen, share of the observed runs replayed on the real generator):
+    # TLC checks the invariants in *every* state; the thorough tier replays a seeded sample of the
+    # larger machines (the full quick machine is always replayed whole)
+    configs = [(3, "FALSE", "{2, 32}", 40, 1.0)] if quick else \
+              [(3, "FALSE", "{2, 32}", 40, 1.0), (3, "TRUE", "{0, 1, 2, 32, 100}", 50, 0.25),
+               (4, "FALSE", "{2, 32}", 40, 0.05)]
+    import random as _random
+    rng = _random.Random(chk.seed)
     events = []
-    for st in core.load_dump(res, only='"obs"'):
-        if st["phase"] != "obs":
-            continue
-        rx = st["stack"][0]
-        for via_fake in ([False, True] if st["mr"] == 32 else [False]):
-            ev = run_one(rx, st["tape"], st["mr"], via_fake)
-            if ev is None:
-                chk.count("pattern_skipped")
+    res = None
+    for (steps, rich, mrs, maxlen, share) in configs:
+        cfg = {"constants": {"MaxSteps": str(steps), "Rich": rich, "MaxRepeats": mrs, "MaxLen": str(maxlen)},
+               "invariants": ["C09_FullMatchOrRefusal", "C09_SupportedNeverRefused", "C09_SearchAccepts"],
+               "view": "View"}
+        r = chk.model_check("MC_Regex", cfg, name="C09_MC_Regex_%d_%s" % (steps, rich), dump=True, timeout=3000)
+        if res is None:
+            res = r
+        for st in core.load_dump(r, only='"obs"'):
+            if st["phase"] != "obs":
                 continue
-            ev["id"] = len(events) + 1
-            events.append(ev)
-            chk.count("refused" if ev["exc"] else "generated")
-            if ev["py_full"] == "timeout":
-                chk.count("re_timeout")
+            if share < 1.0 and rng.random() >= share:
+                chk.count("observed_runs_model_only")
+                continue
+            rx = st["stack"][0]
+            for via_fake in ([False, True] if st["mr"] == 32 else [False]):
+                ev = run_one(rx, st["tape"], st["mr"], via_fake)
+                if ev is None:
+                    chk.count("pattern_skipped")
+                    continue
+                ev["id"] = len(events) + 1
+                events.append(ev)
+                chk.count("refused" if ev["exc"] else "generated")
+                if ev["py_full"] == "timeout":
+                    chk.count("re_timeout")
+        if r is not res:
+            try:
+                import os
+                os.remove(r.dump)
+            except OSError:
+                pass
+    steps, maxlen = max(c[0] for c in configs), max(c[3] for c in configs)
     # code -> spec only: every outcome of the single-character draws.  For each short pattern of
     # the machine that contains a character draw (., a class, a negated class), the generator is
     # run with *every* index as the outcome of each choice (the model cannot predict which letter
@@ -148,4 +169,5 @@ def main(chk):
                        "re.fullmatch runs under a 2 s alarm; a timeout gives no verdict from Python's matcher"]
     return chk.finish(rule="(pattern, tape, max_repeat) runs enumerated by the machine; non-trivial = a run on the "
                            "real RegexGenerator",
-                      extra={"constants": {"MaxSteps": steps, "Rich": rich, "MaxRepeats": mrs, "MaxLen": maxlen}})
+                      extra={"configs": [{"MaxSteps": c[0], "Rich": c[1], "MaxRepeats": c[2], "MaxLen": c[3],
+                                          "share_replayed": c[4]} for c in configs]})
